@@ -39,6 +39,7 @@ Fixpoint eatt_text (fuel : nat) (ents : etab) (active : list str) (sur : bool) (
       | [] => SOk [] []
       | c :: r =>
           if c =? c_amp then
+            if sur then SStop (Fatal EC_Expected2ndSurrogateChar) else
             match declared_ref ents r with
             | Some (n, repl, rest) =>
                 if existsb (str_eqb n) active then SStop (Fatal EC_RecursiveEntity) else
@@ -48,7 +49,7 @@ Fixpoint eatt_text (fuel : nat) (ents : etab) (active : list str) (sur : bool) (
                 end
             | None =>
                 match scan_entref r with
-                | SOk (c1, c2) r' => cons_res c1 (consopt c2 (eatt_text f ents active sur r'))
+                | SOk (c1, c2) r' => cons_res c1 (consopt c2 (eatt_text f ents active false r'))
                 | SStop s => SStop s
                 end
             end
@@ -71,8 +72,9 @@ Fixpoint eattval (fuel : nat) (ents : etab) (q : N) (sur : bool) (l : str) : sre
       | [] => SStop (Fatal EC_XMLException_Fatal)
       | c :: r =>
           if c =? 0 then SStop (Fatal EC_XMLException_Fatal) else
-          if c =? q then SOk [] r else
+          if c =? q then (if sur then SStop (Fatal EC_Expected2ndSurrogateChar) else SOk [] r) else
           if c =? c_amp then
+            if sur then SStop (Fatal EC_Expected2ndSurrogateChar) else
             match declared_ref ents r with
             | Some (n, repl, rest) =>
                 match eatt_text f ents [n] false repl with
@@ -81,7 +83,7 @@ Fixpoint eattval (fuel : nat) (ents : etab) (q : N) (sur : bool) (l : str) : sre
                 end
             | None =>
                 match scan_entref r with
-                | SOk (c1, c2) r' => cons_res c1 (consopt c2 (eattval f ents q sur r'))
+                | SOk (c1, c2) r' => cons_res c1 (consopt c2 (eattval f ents q false r'))
                 | SStop s => SStop s
                 end
             end
@@ -166,11 +168,12 @@ Fixpoint escan_chardata (fuel : nat) (ents : etab) (st : cdst) (sur : bool) (l :
       | c :: r =>
           if c =? c_lt then (if sur then SStop (Fatal EC_Expected2ndSurrogateChar) else SOk [] l) else
           if c =? c_amp then
+            if sur then SStop (Fatal EC_Expected2ndSurrogateChar) else
             match declared_ref ents r with
-            | Some _ => if sur then SStop (Fatal EC_Expected2ndSurrogateChar) else SOk [] l
+            | Some _ => SOk [] l
             | None =>
                 match scan_entref r with
-                | SOk (c1, c2) r' => cons_res c1 (consopt c2 (escan_chardata f ents CW sur r'))
+                | SOk (c1, c2) r' => cons_res c1 (consopt c2 (escan_chardata f ents CW false r'))
                 | SStop s => SStop s
                 end
             end
